@@ -361,7 +361,29 @@ class MetaSim(SimEngine):
                 actions.insert(1, {"name": "jump", "params": [], "pre": [gate2],
                                    "effects": [{"kind": "assign", "fluent": ["f", "x0"], "value": ["int", ra.randint(2, 4)],
                                                 "cond": None, "forall": []}]})
-        if kind == "if" and ifuns and ra.random() < 0.35:
+        int_ifs_ = [g for g in ifuns if g["ret"][0] == "int"]
+        chain_goal = None
+        if kind == "if" and int_ifs_ and ra.random() < 0.2:
+            # a COPY CHAIN: c1 := g(x0), c2 := c1, c3 := c2, goal on c3 -- the actions are declared in any order (the
+            # reversed one needs the remover's "which fluents may become unknown" scan to reach its fixpoint)
+            g = ra.choice(int_ifs_)
+            for nm in ("c1", "c2", "c3"):
+                fluents.append({"name": nm, "type": ["int", 0, 4], "params": [], "default": None})
+                init.append([["f", nm], ["int", 0]])
+            chain = [{"name": "src", "params": [], "pre": [],
+                      "effects": [{"kind": "assign", "fluent": ["f", "c1"], "value": ["if", g["name"], ["f", "x0"]],
+                                   "cond": None, "forall": []}]},
+                     {"name": "cp2", "params": [], "pre": [],
+                      "effects": [{"kind": "assign", "fluent": ["f", "c2"], "value": ["f", "c1"], "cond": None, "forall": []}]},
+                     {"name": "cp3", "params": [], "pre": [],
+                      "effects": [{"kind": "assign", "fluent": ["f", "c3"], "value": ["f", "c2"], "cond": None, "forall": []}]}]
+            order = ra.choice([[2, 1, 0], [2, 1, 0], [0, 1, 2], [1, 2, 0], [2, 0, 1]])
+            # few other actions: the chain multiplies the state space
+            actions = actions[:2] + [chain[i] for i in order]
+            x0_init = next(v[1] for fe, v in init if fe[1] == "x0")
+            tv = next((v[1] for k, v in g["table"] if k == [x0_init]), g["default"][1])
+            chain_goal = ["eq", ["f", "c3"], ["int", tv]] if ra.random() < 0.7 else ["ge", ["f", "c3"], ["int", 1]]
+        if kind == "if" and ifuns and chain_goal is None and ra.random() < 0.35:
             # an interpreted function under a QUANTIFIER: a parametrised fluent lev(l) over two objects, a step
             # towards the goal gated by `forall/exists l. g(lev(l)) ...`, and actions that change lev
             g = ra.choice(ifuns)
@@ -394,6 +416,8 @@ class MetaSim(SimEngine):
             world["goals"] = [goal() for _ in range(ra.choice([0, 1, 1]))]
             x0_init = next(v[1] for f_, v in init if f_[1] == "x0")
             world["goals"].append(["ge", ["f", "x0"], ["int", min(4, x0_init + ra.randint(1, 3))]])
+            if chain_goal is not None:
+                world["goals"] = [chain_goal]
         else:
             world["goals"] = [goal()] if ra.random() < 0.5 else []
             soft = []
